@@ -21,7 +21,7 @@ HEADER = 'From Coq Require Import String Ascii.\nFrom GV.Model Require Import Le
 
 SINGLE = [('upper_kw', True), ('not_form', 'NOT'), ('not_form', '!'), ('or_form', 'OR'), ('or_form', '|OR|'), ('assign', ':='), ('quote', "'"),
           ('cap_bool', True), ('upper_null', True), ('indent', ''), ('indent', '\t'), ('indent', '        '), ('comments', True), ('extra_nl', True),
-          ('list_nl', True), ('opneg', 'not')]
+          ('list_nl', True), ('opneg', 'not'), ('or_lead', True), ('alt_comments', True)]
 
 
 def strip_loc(j):
@@ -74,10 +74,10 @@ def run_styles(ctx, nprog, ncombo):
         progs.append((doc, prog))
         base = gen.render_file(prog)
         ops.append({'op': 'ast', 'rules': base}); meta.append((k, 'base', base))
-        styles = [dict([s]) for s in SINGLE]
+        styles = [dict([s]) for s in SINGLE] + [{'or_lead': True, 'comments': True}, {'or_lead': True, 'comments': True, 'extra_nl': True}]
         for _ in range(ncombo):
             st = {}
-            for key in ('upper_kw', 'cap_bool', 'upper_null', 'comments', 'extra_nl', 'list_nl'):
+            for key in ('upper_kw', 'cap_bool', 'upper_null', 'comments', 'extra_nl', 'list_nl', 'or_lead', 'alt_comments'):
                 st[key] = rng.random() < 0.5
             st['not_form'] = rng.choice(['not', 'NOT', '!'])
             st['or_form'] = rng.choice(['or', 'OR', '|OR|'])
@@ -149,12 +149,15 @@ def run_semantic(ctx, progs):
             pairs.append((text, json.dumps(doc))); meta.append((k, lab, text))
     # default rule and type block equivalences
     tb = []
-    for i in range(40):
+    for i in range(120):
         cfn = gen.gen_cfn(rng)
         if not (isinstance(cfn.get('Resources'), dict) and cfn['Resources'] and all(isinstance(v, dict) for v in cfn['Resources'].values())):
             continue
         t = rng.choice(gen.TYPES)
-        body = rng.choice(['Properties exists', 'Properties.Size >= 0 or\n    Properties.Enabled == true', 'Type == "%s"' % t, 'Properties.Tags[*].Key exists', 'Properties !empty'])
+        body = rng.choice(['Properties exists', 'Properties.Size >= 0 or\n    Properties.Enabled == true', 'Type == "%s"' % t, 'Properties.Tags[*].Key exists', 'Properties !empty',
+                           'when Properties.Zzz exists {\n      Properties exists\n    }', 'when Type == "nothing" {\n      Type exists\n    }',
+                           'when Properties.Size exists {\n      Properties.Size >= 0\n    }\n    when Properties.Zzz exists {\n      Type exists\n    }',
+                           'Properties.Zzz[*] {\n      a exists\n    }', 'Properties.Tags[*] {\n      Key exists\n    }'])
         a = 'rule r {\n  %s {\n    %s\n  }\n}\n' % (t, body)
         b = "rule r {\n  Resources.*[ Type == '%s' ] {\n    %s\n  }\n}\n" % (t, body)
         tb.append((a, b, cfn))
